@@ -31,6 +31,19 @@ pub struct Worst {
 pub fn check_accuracy(t: &dyn Td, sf: Sf, delta: f64, fam: Family, sorted: &[f64], r: &mut FastRng, worst: &mut Worst, evals: &mut u64) -> Result<(), (String, String)> {
     let n = sorted.len();
     let nf = n as f64;
+    // the FIRST read after the inserts is a cdf or a quantile (not n_centroids): a read path that
+    // forgets to merge the backlog is only visible to the first reader
+    let first_read: Option<(bool, f64, f64)> = match r.below(3) {
+        0 => {
+            let x0 = sorted[r.below(n as u64) as usize];
+            Some((true, x0, t.cdf(x0)))
+        }
+        1 => {
+            let q0 = r.f64();
+            Some((false, q0, t.quantile(q0)))
+        }
+        _ => None,
+    };
     let nc = t.n_centroids();
     if (nc as f64) > delta + 3.0 {
         return Err(("C04/too-many-centroids".into(), format!("n_centroids() = {} > delta + 3 = {} after {} inserts", nc, delta + 3.0, n)));
@@ -45,6 +58,24 @@ pub fn check_accuracy(t: &dyn Td, sf: Sf, delta: f64, fam: Family, sorted: &[f64
     }
     let (lo, hi) = (sorted[0], sorted[n - 1]);
     let tau = 1e-9 * (hi - lo).max(lo.abs().max(hi.abs()) * 1e-6).max(f64::MIN_POSITIVE);
+    if let Some((is_cdf, arg, val)) = first_read {
+        *evals += 1;
+        let err = if is_cdf {
+            let (lt, _) = ranks(sorted, arg - tau);
+            let (_, le) = ranks(sorted, arg + tau);
+            (lt as f64 / nf - val).max(val - le as f64 / nf).max(0.0)
+        } else {
+            let (lt, _) = ranks(sorted, val - tau);
+            let (_, le) = ranks(sorted, val + tau);
+            (lt as f64 / nf - arg).max(arg - le as f64 / nf).max(0.0)
+        };
+        if err > allowed || val.is_nan() {
+            return Err((
+                format!("C04/first-read-after-inserts/{}", if is_cdf { "cdf" } else { "quantile" }),
+                format!("{}({:e}) = {:e} as the first read after {} inserts has rank error {:.6} > {:.6} (W = {:.6})", if is_cdf { "cdf" } else { "quantile" }, arg, val, n, err, allowed, w),
+            ));
+        }
+    }
     // q grid
     let mut qs: Vec<f64> = vec![0.0, 1.0, 1e-9, 1.0 - 1e-9];
     let nq = 1000;
